@@ -305,9 +305,9 @@ func init() {
 		Assumptions: []string{"reading D5: only the returned list and to/cc/bto/bcc are judged", "IRI equivalence on this alphabet is an equivalence relation (C14)"},
 		Bound: func(tier string) string {
 			if tier == "thorough" {
-				return "k <= 4 entries over 10 presentations, 14 host types (+Block)"
+				return "k <= 4 entries over 10 presentations and k <= 5 over the 6 presentations of the quick tier, 14 host types (+Block); to-lists of 15..129 distinct addressees with one repeat at the end / at index 1 / in cc / in bcc"
 			}
-			return "k <= 4 entries over 6 presentations (a:iri, a:https, a:*Actor, b:iri, public, nil), 14 host types (+Block)"
+			return "k <= 4 entries over 6 presentations (a:iri, a:https, a:*Actor, b:iri, public, nil), 14 host types (+Block); to-lists of 15..129 distinct addressees with one repeat at the end / at index 1 / in cc / in bcc"
 		},
 		Run: c10Run,
 	})
@@ -320,6 +320,17 @@ func c10Run(c *engine.Ctx) {
 		// quick: up to 4 entries (a removed duplicate followed by two survivors needs 4) over six presentations
 		es = []c10Entry{es[0], es[1], es[4], es[6], es[8], es[7]}
 	}
+	c10Small(c, es, bound, c.Quick())
+	if !c.Quick() {
+		// thorough: one entry more over the six presentations of the quick tier (only assignments of exactly 5 entries are new)
+		all := c10Entries(true)
+		c10Small(c, []c10Entry{all[0], all[1], all[4], all[6], all[8], all[7]}, 5, true)
+	}
+	c10Long(c, es)
+}
+
+// c10Small: every assignment of at most `bound` entries of es to the five lists (and actor / blocked object) on every host.
+func c10Small(c *engine.Ctx, es []c10Entry, bound int, sixPresentations bool) {
 	nonNil := []int{}
 	for i, e := range es {
 		if e.id >= 0 {
@@ -338,7 +349,7 @@ func c10Run(c *engine.Ctx) {
 		if h.block {
 			extra = nil
 			blockObjs := []int{0, 4, 6} // a:iri, a:*Actor, b:iri
-			if c.Quick() {
+			if sixPresentations {
 				blockObjs = []int{0, 2, 3}
 			}
 			for _, x := range blockObjs {
@@ -369,6 +380,10 @@ func c10Run(c *engine.Ctx) {
 			})
 		}
 	}
+}
+
+// c10Long: long lists and ItemCollection.Recipients.
+func c10Long(c *engine.Ctx, es []c10Entry) {
 	// long lists: N distinct addressees in `to` plus one repeat, at list indices around 64 and 128
 	for _, h := range c10Hosts() {
 		h := h
